@@ -211,6 +211,17 @@ Theorem srgba8_per_channel_thm : forall (powf : R -> R -> R) x y z w,
 Proof. exact srgba8_per_channel. Qed.
 Print Assumptions srgba8_per_channel_thm.
 
+(* independence form: byte k of linear_to_srgba8 is unchanged when the other three components change (so e.g. blue
+   cannot depend on red, green or alpha); together with cvt_monotone / cvt_saturates / srgb_monotone each byte is a
+   monotone, saturating function of its own component only *)
+Theorem srgba8_channel_independent_thm : forall (powf : R -> R -> R) x y z w x' y' z' w',
+  channel (linear_to_srgba8 powf x y z w) 0 = channel (linear_to_srgba8 powf x y' z' w') 0 /\
+  channel (linear_to_srgba8 powf x y z w) 1 = channel (linear_to_srgba8 powf x' y z' w') 1 /\
+  channel (linear_to_srgba8 powf x y z w) 2 = channel (linear_to_srgba8 powf x' y' z w') 2 /\
+  channel (linear_to_srgba8 powf x y z w) 3 = channel (linear_to_srgba8 powf x' y' z' w) 3.
+Proof. exact srgba8_channel_independent. Qed.
+Print Assumptions srgba8_channel_independent_thm.
+
 (* ---- random distributions: for ANY monotone rounding rn that is the identity on a format F
    containing 0, 1 and 2^32, every value lies in [lower, rn(rn(upper-lower)+lower)] ----------- *)
 Theorem pcg_float_range_thm : forall (rn : R -> R) (F : R -> Prop),
